@@ -520,7 +520,7 @@ func main() {
 	configs := allConfigs()
 
 	// generated documents
-	nGen := r.Pick(60, 300)
+	nGen := r.Pick(60, 240)
 	for i := 0; i < nGen; i++ {
 		doc, di := genDoc(r.Rand, genOpts{allowHazards: true})
 		for _, d := range di.desc {
